@@ -99,4 +99,25 @@ var props = map[string]*propCfg{
 		Quick:       []legCfg{mc("order", "MC_C05", "C05_quick.cfg", 10*time.Minute), tr("order", "EngineTrace", 300, 4)},
 		Thorough:    []legCfg{mc("order", "MC_C05", "C05_thorough.cfg", 40*time.Minute), tr("order", "EngineTrace", 2000, 12)},
 	},
+	"C02": {
+		ID: "C02", Level: "model_checking", Exhaustive: true,
+		Rule:        "TLC enumerates (a) one aliased expression per case from the grammar: 10 atoms (columns a, b, nested n.p, a missing key, constants 0 1 2 3 -1 1/2), every binary operator (+ - * / DIV % & | ^ << >>) and unary operator (- ~ !) over all atom pairs, depth-2 trees over a core set, CASE WHEN with 1-2 arms with/without ELSE, on every 1-row (thorough: also 2-row) table drawn from 5 rows incl. a NULL operand, keeping only inputs whose meaning the statement fixes (no division by zero etc.); (b) every select list of 1-3 items from 9 items (star, bare / aliased columns, nested path, missing key, expressions, a literal, clashing names) x every table of <= MaxRows rows x {no WHERE, WHERE}. Each case is replayed and the exact row sequence (key sets and values) compared. Leg T: seeded random tables (0-6 rows) x select lists of 1-4 items with trees to depth 5. Non-trivial: at least one output row and not a lone bare column / literal; distinct = distinct (table, query) pairs.",
+		Assumptions: append([]string{"numbers are compared exactly when the expected value is dyadic, otherwise within 1e-12 relative (IEEE rounding of the engine's float64 arithmetic against the specification's exact rationals)"}, baseAssumptions...),
+		Quick:       []legCfg{mc("proj", "MC_C02", "C02_quick.cfg", 10*time.Minute), tr("proj", "EngineTrace", 300, 4)},
+		Thorough:    []legCfg{mc("proj", "MC_C02", "C02_thorough.cfg", 40*time.Minute), tr("proj", "EngineTrace", 2000, 12)},
+	},
+	"C03": {
+		ID: "C03", Level: "model_checking", Exhaustive: true,
+		Rule:        "TLC enumerates every table of <= MaxRows rows drawn from a pool of rows with two plain grouping columns, a grouping column holding NULL and values of different kinds with equal %v text, a numeric column and a numeric column with NULLs x 5 grouping column sets x 7 select lists (COUNT(*), SUM on two columns, MIN/MAX, AVG/COUNT(col), aggregates only, star, aggregates before columns) x 5 WHERE/HAVING combinations, plus the no-GROUP-BY family: 4 all-aggregate select lists x 5 WHERE predicates incl. one no row passes. Each case is replayed several times in fresh queries and the exact output sequence compared. Leg T: seeded random tables (0-10 rows) x 1-3 grouping columns x 1-4 aggregates x WHERE/HAVING. Non-trivial: >= 2 groups (grouped) or a WHERE that keeps some but not all rows (whole-table); distinct = distinct (table, query) pairs.",
+		Assumptions: baseAssumptions,
+		Quick:       []legCfg{mc("group", "MC_C03", "C03_quick.cfg", 10*time.Minute), tr("group", "EngineTrace", 300, 4)},
+		Thorough:    []legCfg{mc("group", "MC_C03", "C03_thorough.cfg", 60*time.Minute), tr("group", "EngineTrace", 2000, 12)},
+	},
+	"C06": {
+		ID: "C06", Level: "model_checking", Exhaustive: true,
+		Rule:        "TLC enumerates (a) SELECT DISTINCT over every table of <= MaxRows rows from a pool of 7 rows whose textual fingerprints coincide although the rows differ ({a:'x b:y'} / {a:'x',b:'y'}, 1 / '1', missing / NULL) x 4 select lists x 3 windows; (b) two-branch unions over every pair of tables of <= MaxBranch rows x {UNION, UNION ALL} x 4 windows x {plain, filtered right branch}; (c) three-branch chains over every triple of tables x all four UNION / UNION ALL mixes x 2 windows. Each case is replayed and the exact row sequence compared. Leg T: seeded random 1-4 branch chains over tables of 0-6 rows, DISTINCT branches, LIMIT/OFFSET. Non-trivial: the un-deduplicated result contains a duplicate row; distinct = distinct (document, query) pairs.",
+		Assumptions: baseAssumptions,
+		Quick:       []legCfg{mc("distinct", "MC_C06", "C06_quick.cfg", 10*time.Minute), tr("distinct", "EngineTrace", 300, 4)},
+		Thorough:    []legCfg{mc("distinct", "MC_C06", "C06_thorough.cfg", 40*time.Minute), tr("distinct", "EngineTrace", 2000, 12)},
+	},
 }
